@@ -16,7 +16,7 @@ pub struct X {
 }
 
 fn is_waiting_send(op: &Op) -> bool {
-    matches!(op, Op::Send(..))
+    matches!(op, Op::Send(..) | Op::Burst(..))
 }
 
 fn oracle(s: &ProgScene<X>, t: &Trace) -> Vec<Violation> {
@@ -164,8 +164,28 @@ fn make_case(progs: &[Vec<L>], mailbox: Mailbox, work: Work, interval_with: bool
     }
 }
 
+/// One deep history instead of many short ones: the actor is busy with its first message while a
+/// client pushes `n` more through the waiting path. "Unbounded" must mean it - a large finite
+/// capacity standing in for it (a refactoring that builds the unbounded mailbox as a big bounded
+/// one) only shows with a backlog this deep.
+fn deep_case(n: u32, via_sender: bool) -> Case {
+    let h = if via_sender { H::Snd(0) } else { H::Addr(0) };
+    let clients = vec![ClientSpec { init: FULL.to_vec(), ops: vec![Op::Send(H::Addr(0), 100), Op::Burst(h, 1000, n)] }];
+    let mut role = RoleCfg::default();
+    role.work.push((100, Work { sleep: 2, ..Work::default() }));
+    Case {
+        desc: format!("backpressure{} deep backlog: {n} sends via {} behind a busy handler, mailbox=U", crate::progscene::variant_tag(), if via_sender { "Sender" } else { "Addr" }),
+        exec: ExecCfg { horizon: 1, ..ExecCfg::default() },
+        bound: Some(1),
+        scene: Box::new(ProgScene { variant: crate::progscene::current_variant(), attach: crate::progscene::attach_for(Mailbox::U), spawn: SpawnCfg::plain(Mailbox::U), roles: vec![role], clients, extra: X { interval_with: false }, oracle }),
+    }
+}
+
 fn plain_cases(tier: Tier) -> Vec<Case> {
     let mut v = vec![];
+    let deep = if tier == Tier::Quick { 100_000 } else { 1_100_000 };
+    v.push(deep_case(deep, false));
+    v.push(deep_case(deep, true));
     let senders = [L::SendAddr, L::SendSnd, L::SendWSnd];
     let mixed = [L::SendAddr, L::SendSnd, L::SendWSnd, L::CallAddr, L::Ping, L::ForceWSnd];
     let works = [Work::default(), Work { yields: 1, ..Work::default() }, Work { sleep: 1, ..Work::default() }];
@@ -207,6 +227,14 @@ fn plain_cases(tier: Tier) -> Vec<Case> {
                         v.push(make_case(&[a.clone(), b.clone(), c], mb, work, false, false, None));
                     }
                 }
+            }
+            // a sender that gives up while parked (its future is dropped) holds nobody else up and
+            // does not loosen the bound for the others
+            for a in seqs(&senders, 1) {
+                v.push(make_case(&[vec![L::SendAbandon, a[0], a[0]]], mb, work, false, false, None));
+                v.push(make_case(&[vec![a[0], L::SendAbandon, a[0]]], mb, work, false, false, None));
+                v.push(make_case(&[vec![L::SendAbandon, L::SendAbandon], vec![a[0], a[0]]], mb, work, false, false, None));
+                v.push(make_case(&[vec![a[0], L::SendAbandon], vec![L::SendAbandon, a[0]]], mb, work, false, false, None));
             }
             // interval_with as a sender (parks in the timer task), plus one client sender
             for a in seqs(&senders, 1) {
